@@ -38,6 +38,8 @@ EXTRA = [
     'x = E::one; y = cardinality as; z = not_empty a and not empty b; a.n = a.b.c; v = w[1]; w[2] = 3; t = p.q[0].r;',
     'create event instance e of E1:\'go now\'(x: 1) to a; generate e; generate E2*(y: 2) to a; create event instance f of E3 to A creator;',
     'return ( true );',
+    # keywords used as member names (kw_as_identifier productions)
+    'x = a.cardinality; y = a.selected; z = a.if; w = a.bridge + a.param; a.empty = 1; b.self = a.rcvd_evt; c.and = c.else;',
 ]
 PROGS = list(c07_layout.PROGS) + EXTRA
 NP = len(PROGS)
